@@ -61,7 +61,7 @@ func genStored(g *sqlh.Gen, t *sqlh.TableDesc, c *sqlh.ColDesc, rowIdx int) CV {
 		}
 		return CV{K: "int", Z: int64(rowIdx + 1)}
 	}
-	nullable := strings.HasPrefix(c.Ty, "*") || c.ImplicitNull
+	nullable := strings.HasPrefix(c.Ty, "*") || c.ImplicitNull || c.Ty == "bytes" // a NULL blob is a nil slice
 	if nullable && g.R.Chance(35) {
 		return CV{K: "null"}
 	}
@@ -90,6 +90,8 @@ func filterValue(g *sqlh.Gen, c *sqlh.ColDesc, stored CV) sqlh.GV {
 	switch stored.K {
 	case "null":
 		switch {
+		case bt == "bytes" && g.R.Bool():
+			return sqlh.GV{T: "nilbytes"}
 		case strings.HasPrefix(c.Ty, "*") && g.R.Bool():
 			return sqlh.GV{T: "nilptr", PT: bt}
 		case c.ImplicitNull && g.R.Chance(70):
@@ -178,7 +180,7 @@ func isZeroGV(v sqlh.GV) bool {
 		return !v.B
 	case "float64":
 		return v.Q == 0
-	case "nil", "nilptr":
+	case "nil", "nilptr", "nilbytes":
 		return true
 	case "ptr":
 		return false
@@ -192,15 +194,20 @@ func exactlyTyped(c *sqlh.ColDesc, v sqlh.GV) bool {
 	bt := sqlh.BaseType(c.Ty)
 	switch v.T {
 	case "nil", "nilptr":
-		return !c.ImplicitNull
+		// nil on a []byte column: the NULL scans into a nil slice, which MakeHashable turns into ""
+		return !c.ImplicitNull && bt != "bytes"
+	case "nilbytes":
+		return false // hashed as "", like an empty slice
 	case "ptr":
-		return v.Elem.T == bt && !(c.ImplicitNull && isZeroGV(*v.Elem))
+		return v.Elem.T == bt && !(c.ImplicitNull && isZeroGV(*v.Elem)) && !(bt == "bytes" && v.Elem.S == "")
+	case "bytes":
+		return bt == "bytes" && v.S != "" // an empty []byte is hashed like a NULL one
 	}
 	return v.T == bt
 }
 
 func denotesNull(c *sqlh.ColDesc, v sqlh.GV) bool {
-	return v.T == "nil" || v.T == "nilptr" || (c.ImplicitNull && v.T != "ptr" && isZeroGV(v))
+	return v.T == "nil" || v.T == "nilptr" || v.T == "nilbytes" || (c.ImplicitNull && v.T != "ptr" && isZeroGV(v))
 }
 
 // ---- running ----
@@ -326,7 +333,10 @@ func main() {
 	r := vh.NewRng(o.Seed)
 
 	var cases []Case
-	if o.Replay != "" {
+	searching := o.Search != ""
+	if searching {
+		cases = searchCases(o, r)
+	} else if o.Replay != "" {
 		var c Case
 		if vh.ReadReplayCase(o.Replay, &c) {
 			c.Origin = "replay"
@@ -488,6 +498,9 @@ func main() {
 			run.Sample(map[string]interface{}{"case": c, "batched_statements": st, "rows_per_caller": res.batchedRows, "arrival": res.arrival})
 		}
 
+		if searching {
+			continue
+		}
 		// ---- Coq case ----
 		bev, ok1 := sqlh.CoqEvents(res.batchedLog)
 		sev, ok2 := sqlh.CoqEvents(res.singleLog)
@@ -514,7 +527,7 @@ func main() {
 		}
 	}
 	flush()
-	if o.Replay == "" && totalCallers >= 20 && totalStatements >= totalCallers {
+	if o.Replay == "" && !searching && totalCallers >= 20 && totalStatements >= totalCallers {
 		run.Fail(-1, "c10-no-combining", fmt.Sprintf("%d batched callers needed %d statements: concurrent queries are not combined", totalCallers, totalStatements), nil)
 	}
 	run.Extra = map[string]interface{}{"batched_callers": totalCallers, "batched_statements": totalStatements}
